@@ -59,8 +59,11 @@ impl<'a> Lexer<'a> {
                 if self.input.is_empty() {
                     None
                 } else {
+                    // The span of an invalid token is its first character
                     let start = self.original_length - self.input.len();
-                    let end = start + 1;
+                    let len =
+                        self.input.chars().next().map_or(1, char::len_utf8);
+                    let end = start + len;
                     Some((Err(()), start..end))
                 }
             }
